@@ -407,6 +407,42 @@ def gen_hold_script(rng, nhosts=None):
     return {"cfg": cfg, "steps": steps, "flavour": "hold"}
 
 
+def gen_mixed_script(rng):
+    """All six link calls, manual delivery and random link failures in one script (outside the alphabets of
+    the C03 / C08 oracles, which skip it): exercises the model <-> implementation correspondence on the
+    transitions between the families (hold over a partition, partition of a held link, repair of a held
+    link, release of a partitioned link)."""
+    cfg = base_cfg(rng, fail=rng.choice([0.0, 0.0, 0.1, 0.4]))
+    n = cfg["nhosts"]
+    ids = IdGen()
+    steps = [WARMUP()]
+    calls = ["partition", "partition_oneway", "repair", "repair_oneway", "hold", "hold", "release"]
+    for k in range(rng.randrange(8, 20)):
+        ctl, hosts = [], {}
+        for _ in range(rng.choice([0, 1, 1, 2])):
+            a, b = rng.sample(range(n), 2)
+            ctl.append([rng.choice(calls), rand_sel_or_set(rng, a, n, 0.2), rand_sel_or_set(rng, b, n, 0.2)])
+        if rng.random() < 0.4:
+            ctl.append(["links"])
+            if rng.random() < 0.5:
+                a, b = rng.sample(range(n), 2)
+                ctl.append(["deliver_all", a, b] if rng.random() < 0.3 else ["deliver", a, b, rng.randrange(0, 4)])
+                ctl.append(["links"])
+        rand_sends(rng, n, ids, hosts, [0, 1, 2, 2, 3])
+        if rng.random() < 0.2:
+            h = rng.randrange(n)
+            a, b = rng.sample(range(n), 2)
+            lst = hosts.setdefault(str(h), [])
+            lst.insert(rng.randrange(len(lst) + 1), [rng.choice(calls), rand_sel(rng, a), rand_sel(rng, b)])
+        steps.append({"ctl": ctl, "hosts": hosts})
+    steps.append({"ctl": [["repair", {"re": "^h"}, {"re": "^h"}], ["release", {"re": "^h"}, {"re": "^h"}], ["links"]], "hosts": {}})
+    drain = (cfg["max_ms"] * 1000) // cfg["tick_us"] + 3
+    for _ in range(drain):
+        steps.append({"ctl": [], "hosts": {}})
+    steps[-1]["ctl"].append(["links"])
+    return {"cfg": cfg, "steps": steps, "flavour": "mixed"}
+
+
 def gen_burst_script(rng):
     """C14: a large burst on one direction falling due in a single tick, small latency window
     (many equal delivery instants), so that ordering among ties is exercised at scale."""
